@@ -256,6 +256,8 @@ def oracle_ext(tools, model, src, w, t, c):
     diff = D.compare(ast_src, ast_out, lambda a, b, where: same_expr(model, a, b, where))
     if diff:
         probs.append(("not-equivalent", diff))
+    elif ok:
+        decl_syntax_correspondence(tools.ctx, model, fold(X.lex(src)), fold(toks_out), src)
     if ok:
         rc2, out2, err2 = tools.exppp(out, w, t, c)
         if rc2 != 0 or out2 is None:
@@ -270,6 +272,29 @@ def oracle_ext(tools, model, src, w, t, c):
             except X.LexError as ex:
                 probs.append(("unstable", f"the second printing cannot be split into tokens ({ex}); " + locate(out2, ex)))
     return probs, out
+
+
+def decl_syntax_correspondence(ctx, model, toks_src, toks_out, src):
+    """Lean `tyToks` / `argsToks` (StepModel/ExpDeclSyn.lean) against the tokens exppp printed: underlying types of TYPE
+    declarations and the parameter lists of FUNCTION / PROCEDURE headers"""
+    try:
+        so, oo = D.type_slices(toks_src), D.type_slices(toks_out)
+        for name, body in so.items():
+            ty = D.P(body + [X.S(";")]).type_()
+            rep = model.ask("ty " + D.enc_ty(ty))
+            ctx.hist("correspondence", "declaration syntax: type")
+            if rep != "D " + D.collapse(oo[name]):
+                ctx.corr_problems.append(("decl-syntax", f"TYPE {name}: exppp `{D.collapse(oo[name])}` vs model `{rep[2:]}`", src)); return
+        hs, ho = D.header_slices(toks_src), D.header_slices(toks_out)
+        for key, sl in hs.items():
+            ps = D.source_params(sl)
+            rep = model.ask(f"args {len(ps)} " + " ".join(f"{X.hx(n)} {int(v)} {o} {D.enc_ty(t)}" for n, v, t, o in ps))
+            ctx.hist("correspondence", "declaration syntax: parameter list")
+            want = "D " + D.collapse(ho[key]) + " | roundtrip-ok"
+            if rep != want:
+                ctx.corr_problems.append(("decl-syntax", f"{key[0]} {key[1]}: exppp `{want[2:]}` vs model `{rep[2:]}`", src)); return
+    except (D.DeclError, KeyError, IndexError) as ex:
+        ctx.corr_problems.append(("decl-syntax", f"cannot compare declaration syntax: {type(ex).__name__} {ex}", src))
 
 
 def evaluate_ext(ctx, tools, model, src, settings, label="", key=None):
